@@ -361,8 +361,21 @@ package operator
 //@ pure plainRolesU(m peersMap) = forall s uint64 :: {in(m, s)} in(m, s) ==> m[s].Role != 2 && m[s].Role != 3
 // Every origin peer that is in no work map already has (a role that agrees with) its requested role.
 //@ pure originSettled(b *Builder) = forall s uint64 :: {in(b.originPeers, s)} in(b.originPeers, s) && !in(b.toRemove, s) && !in(b.toPromote, s) && !in(b.toDemote, s) ==> in(b.targetPeers, s) && b.targetPeers[s] != nil && agree(b.originPeers[s], b.targetPeers[s])
+// What the joint-consensus path additionally needs from the diff (only when demotion is supported): an add goes to a
+// store without an origin peer, a removal concerns an origin peer whose store is absent from the request, every
+// requested store either has an origin peer or a pending add, demotions concern origin voters.
+//@ pure jointDiff(b *Builder) = (forall s uint64 :: {in(b.toAdd, s)} in(b.toAdd, s) ==> !in(b.originPeers, s)) && (forall s uint64 :: {in(b.toRemove, s)} in(b.toRemove, s) ==> in(b.originPeers, s) && b.toRemove[s] == b.originPeers[s] && !in(b.targetPeers, s)) && (forall s uint64 :: {in(b.toDemote, s)} in(b.toDemote, s) ==> in(b.originPeers, s) && in(b.targetPeers, s) && b.toDemote[s].Role == 1) && (forall s uint64 :: {in(b.toPromote, s)} in(b.toPromote, s) ==> in(b.originPeers, s))
+//@ pure targetCovered(b *Builder) = forall s uint64 :: {in(b.targetPeers, s)} in(b.targetPeers, s) ==> in(b.originPeers, s) || in(b.toAdd, s)
+//@ pure sameContent(a peersMap, c peersMap) = (forall s uint64 :: {in(a, s)} in(a, s) == in(c, s)) && (forall s uint64 :: {a[s]} a[s] == c[s])
 //@ func (*Builder).prepareBuild
 //@   props C08
+//@   ensures [demotion-support-unchanged] b.allowDemote == old(b.allowDemote) && b.originPeers == old(b.originPeers) && b.targetPeers == old(b.targetPeers) && b.originLeaderStoreID == old(b.originLeaderStoreID) && (old(b.useJointConsensus) || !b.useJointConsensus)
+//@   ensures [simulation-starts-at-the-origin] r1 == nil ==> b.currentLeaderStoreID == b.originLeaderStoreID && sameContent(b.currentPeers, b.originPeers) && b.currentPeers != b.originPeers
+//@   ensures [joint-diff] r1 == nil && b.allowDemote ==> jointDiff(b)
+//@   ensures [every-requested-store-is-covered] r1 == nil ==> targetCovered(b)
+//@   loop 2 invariant b.allowDemote ==> jointDiff(b)
+//@   loop 3 invariant b.allowDemote ==> jointDiff(b)
+//@   loop 3 invariant [covered-so-far] forall s uint64 :: {visited(b.targetPeers, s)} visited(b.targetPeers, s) && in(b.targetPeers, s) ==> in(b.originPeers, s) || in(b.toAdd, s)
 //@   requires b != nil && b.cluster != nil && wfPM(b.originPeers) && wfPM(b.targetPeers) && allocated(b.originPeers) && allocated(b.targetPeers) && plainRolesU(b.originPeers)
 //@   ensures [work-maps-well-formed-and-distinct] r1 == nil ==> bInv(b) && wfPM(b.targetPeers) && b.targetPeers != b.currentPeers && b.targetPeers != b.toAdd && b.targetPeers != b.toRemove && b.targetPeers != b.toPromote && b.targetPeers != b.toDemote
 //@   ensures [pending-changes-carry-the-requested-role] r1 == nil ==> pendingRole(b.toAdd, b.targetPeers) && pendingRole(b.toPromote, b.targetPeers) && pendingRole(b.toDemote, b.targetPeers)
@@ -381,8 +394,35 @@ package operator
 // Build's glue: whatever prepareBuild leaves behind is what the step loop needs (every clause of the step loop's
 // precondition is discharged from prepareBuild's postconditions at the call site).  The joint-consensus path and the
 // construction of the Operator value are surroundings with arbitrary effects (not covered).
+// buildStepsWithJointConsensus: adds on free stores first, then one joint transition whose ordering relative to the
+// leader transfer is chosen so that the leader is never a demoted peer when the joint state is left, then the removals -
+// never of the leader. Every exec* call is reached with its precondition established.
+//@ pure mapsApart(b *Builder) = b.targetPeers != b.currentPeers && b.targetPeers != b.toAdd && b.targetPeers != b.toRemove && b.targetPeers != b.toPromote && b.targetPeers != b.toDemote && b.originPeers != b.currentPeers && b.originPeers != b.toAdd && b.originPeers != b.toRemove && b.originPeers != b.toPromote && b.originPeers != b.toDemote && b.targetPeers != b.originPeers
+//@ pure originKept(b *Builder) = forall s uint64 :: {in(b.originPeers, s)} in(b.originPeers, s) ==> in(b.currentPeers, s) && b.currentPeers[s] == b.originPeers[s]
+//@ pure coveredNow(b *Builder) = forall s uint64 :: {in(b.targetPeers, s)} in(b.targetPeers, s) ==> in(b.currentPeers, s) || in(b.toAdd, s)
+//@ pure tLeadOK(b *Builder) = b.targetLeaderStoreID != 0 ==> in(b.targetPeers, b.targetLeaderStoreID) && leaderRole(b.targetPeers[b.targetLeaderStoreID])
+//@ pure leadNow(b *Builder) = (in(b.toPromote, b.targetLeaderStoreID) && leaderRole(b.toPromote[b.targetLeaderStoreID])) || (!in(b.toPromote, b.targetLeaderStoreID) && in(b.currentPeers, b.targetLeaderStoreID) && leaderRole(b.currentPeers[b.targetLeaderStoreID]))
+//@ pure demotedGoneOrLearner(b *Builder) = forall s uint64 :: {in(b.toDemote, s)} in(b.toDemote, s) ==> in(b.currentPeers, s) && (!in(b.targetPeers, s) || b.targetPeers[s].Role == 1)
+//@ pure promotedPresent(b *Builder) = forall s uint64 :: {in(b.toPromote, s)} in(b.toPromote, s) ==> in(b.currentPeers, s)
+//@ pure removalsGone(b *Builder) = forall s uint64 :: {in(b.toRemove, s)} in(b.toRemove, s) ==> b.toRemove[s] != nil && in(b.currentPeers, s) && !in(b.targetPeers, s)
 //@ func (*Builder).buildStepsWithJointConsensus
-//@   assumed
+//@   props C08
+//@   requires b != nil && b.cluster != nil && b.allowDemote && bInv(b) && settled(b) && wfPM(b.targetPeers) && wfPM(b.originPeers) && plainRolesU(b.originPeers) && mapsApart(b) && jointDiff(b) && targetCovered(b) && tLeadOK(b)
+//@   requires [simulation-starts-at-the-origin] b.currentLeaderStoreID == b.originLeaderStoreID && sameContent(b.currentPeers, b.originPeers)
+//@   loop 1 invariant bInv(b) && settled(b) && wfPM(b.targetPeers) && wfPM(b.originPeers) && mapsApart(b) && b.cluster != nil && tLeadOK(b) && b.currentLeaderStoreID == b.originLeaderStoreID && b.allowDemote
+//@   loop 1 invariant [pending-adds-on-free-stores] forall k :: {callres("IDs", 1)[k]} rangeindex < k && k < len(callres("IDs", 1)) ==> in(b.toAdd, callres("IDs", 1)[k]) && !in(b.currentPeers, callres("IDs", 1)[k])
+//@   loop 1 invariant [done-adds-left-the-map] forall k :: {callres("IDs", 1)[k]} 0 <= k && k <= rangeindex ==> !in(b.toAdd, callres("IDs", 1)[k])
+//@   loop 1 invariant originKept(b) && coveredNow(b) && promotedPresent(b) && removalsGone(b) && demotedGoneOrLearner(b)
+//@   loop 1 invariant forall s uint64 :: {in(b.toAdd, s)} in(b.toAdd, s) ==> !in(b.originPeers, s)
+//@   loop 1 modifies b.steps, b.currentPeers[*], b.toAdd[*], b.toPromote[*], b.peerAddStep[*]
+//@   at setTargetLeaderIfNotExist 1 assert [all-adds-done] forall s uint64 :: {in(b.toAdd, s)} !in(b.toAdd, s)
+//@   at setTargetLeaderIfNotExist 1 after assert [target-leader-can-lead-now] b.targetLeaderStoreID != 0 ==> leadNow(b) && !in(b.toDemote, b.targetLeaderStoreID) && !in(b.toRemove, b.targetLeaderStoreID)
+//@   loop 3 invariant bInv(b) && wfPM(b.targetPeers) && wfPM(b.originPeers) && mapsApart(b) && tLeadOK(b) && b.targetLeaderStoreID != 0 && b.currentLeaderStoreID == b.originLeaderStoreID && plainRolesU(b.originPeers)
+//@   loop 3 invariant originKept(b) && promotedPresent(b) && removalsGone(b) && demotedGoneOrLearner(b) && leadNow(b) && !in(b.toDemote, b.targetLeaderStoreID) && !in(b.toRemove, b.targetLeaderStoreID)
+//@   loop 3 modifies b.toDemote[*]
+//@   loop 2 invariant bInv(b) && b.currentLeaderStoreID == b.targetLeaderStoreID && in(b.targetPeers, b.targetLeaderStoreID) && (forall s uint64 :: {in(b.toRemove, s)} in(b.toRemove, s) ==> b.toRemove[s] != nil && !in(b.targetPeers, s))
+//@   loop 2 invariant [pending-removals-still-listed] forall k :: {callres("IDs", 3)[k]} rangeindex < k && k < len(callres("IDs", 3)) ==> in(b.toRemove, callres("IDs", 3)[k])
+//@   loop 2 modifies b.steps, b.currentPeers[*], b.toRemove[*]
 //@   modifies *
 //@ func NewOperator
 //@   assumed
